@@ -20,9 +20,25 @@ RULE = ("(1) small scope: monotonize_simple on every weak ordering of <=5 values
         "non-decreasing grids with duplicates, queries on / between / outside grid points; (2) target/decoy score "
         "vectors with 50..2000 PSMs: normal mixtures (well separated, overlapping, weak), rounded scores (ties), "
         "integer-valued scores, few-level scores; input order shuffled / sorted descending / sorted ascending / "
-        "targets-first; x every selectable estimator (qvality, kde_nnls, hist_nnls, from_counts, from_peps); "
-        "(3) length-mismatch inputs.  distinct = distinct (estimator, input); non-trivial = estimator case whose "
-        "input is not already in descending order or has tied scores")
+        "targets-first / each class sorted / one swap; x every selectable estimator (qvality, kde_nnls, hist_nnls, "
+        "from_counts, from_peps); (2b, 'forms') the same estimators on further value domains - heavy tails, two clusters "
+        "with empty bins between them, one-sided families (exponential, lognormal, classifier probabilities in [0,1]), "
+        "single far outliers; scores rescaled by 2^10 / 2^-10, shifted by +10000, all negative, mapped onto [0,1]; 20..80 % "
+        "targets; sizes 60..1000 (thorough ..5000) including 499/500/501 (the 500 bins of triqler and the 500 KDE points) - "
+        "handed over as float64 / float32 / int64 / int32 arrays, contiguous / strided / read-only / negative-stride / "
+        "column-of-a-2-D-array views, with the algorithm passed by position / by its documented keyword / left to the "
+        "default, after setting numpy's global RNG seed and triqler's VERB to different values, and (every 4th data set) "
+        "called a second time after another estimator ran on other data (results must be bit-identical); "
+        "(3) length-mismatch inputs; (4) result files: assign_confidence on 200..500 PSMs for every PEP estimator x both "
+        "score directions, and ('pipeline options') x CONFIDENCE_CHUNK_SIZE default / 37 / 64 / 100 x decoys True / False / "
+        "default x qvalue_algorithm tdc / from_peps / from_counts x max_workers 1..3 x peps_error x scores=None / explicit "
+        "x 1 or 2 collections (also ranked in opposite directions) x a directory that still holds the result files of an "
+        "earlier run: every row of every targets.* / decoys.* file is traced back to its input PSM by PSMId and must carry "
+        "that PSM's score and the model's PEP (and q-value for from_peps / from_counts) for it.  The Coq model works on the "
+        "numbers only: dtype, layout, call style and global state reach it only through the values and recorded oracle "
+        "outputs, so for these dimensions the check is 'the implementation still agrees with the model of the plain call'.  "
+        "distinct = distinct (estimator, input, form); non-trivial = estimator case on a valid input (>= 50 PSMs, >= 12 of "
+        "each class) that is not already in descending order or has tied scores, or a malformed input")
 ASSUMPTIONS = [
     "scores and interpolation grid points reach the model as exact integers (floats scaled by one power of two per case)",
     "oracle outputs reach the model as exact rationals Fraction(float); contracts (f>=0 and equal at equal scores, d>=0, "
@@ -30,6 +46,13 @@ ASSUMPTIONS = [
     "comparison: |impl - model| <= 1e-9 * max(1, |model|) (chains of float operations: cumsum, division, interpolation)",
     "hist_nnls with pep_est[0] == 0 (0/0 -> NaN in the implementation) is Err EValue in the model and NaN on the other side",
     "qvalues_from_counts with a best-scoring decoy returns +inf for every PSM (x/0); the model reports PepAllInf",
+    "known finding pi0-by-slope:decoy-mode-at-low-end: when the decoy density the estimator looks at (recomputed by the harness "
+    "with numpy/scipy alone from the input) is within 90 % of its maximum in its first bin and the implementation fails with "
+    "np.polyfit's 'expected non-empty vector', the case is reported as that finding, not as a fit failure",
+    "float32 scores: the interpolation grid is computed in float32 by the implementation; the grid contracts (equally spaced, "
+    "bin centres) are checked to 1e-6 relative there, 1e-12 otherwise",
+    "targets are always a numpy bool array and scores a numpy array (the documented types); pandas Series input is probed and "
+    "reported as an observation only",
     "an exception raised INSIDE a fitting library (np.polyfit on an empty prefix, ...) means there is nothing to "
     "post-process: such cases are counted (library_fit_failures) and must stay below 15 % per estimator; an exception "
     "raised by mokapot's own code or at the call of a library function is a disagreement",
@@ -47,6 +70,7 @@ Q_ALGS = ("from_counts", "from_peps")
 _CACHE = {}
 FIT_FAILURES = {}
 ESTIMATOR_CASES = {}
+NONFINITE_RESULTS = {}
 STATS = {"contracts_checked": 0, "contract_failures": 0, "oracle_values_recorded": 0}
 
 
@@ -189,11 +213,75 @@ def _raised_in(exc):
     return f"library:{short}:{fr_.name}"
 
 
-def _arrays(c):
+# ----------------------------------------------------------------------------- the FORM in which a case reaches the real code
+# c["form"] (absent = all defaults) says how the very same numbers are handed to the public function:
+#   sd   dtype of the score array        f8 | f4 | i8 | i4      (the generator only stores values the dtype holds exactly)
+#   lay  memory layout of both arrays    contig | strided | readonly | negstride | col2d
+#   call call style                      pos | kw | default     (default: algorithm argument left out, qvality only)
+#   pre  global state set before the call {"seed": numpy global RNG seed or None, "verb": triqler.qvality.VERB}
+#   rep  name of ANOTHER estimator: after the recorded call that estimator is run on the reversed data, then the
+#        recorded call is repeated on fresh arrays; both results must be bit-identical (no leftover state)
+_DT = {"f8": "float64", "f4": "float32", "i8": "int64", "i4": "int32"}
+_DT_EPS = {"f8": Fraction(1, 10 ** 12), "f4": Fraction(1, 10 ** 6), "i8": Fraction(1, 10 ** 12), "i4": Fraction(1, 10 ** 12)}
+
+
+def _form(c):
+    return c.get("form") or {}
+
+
+def _lay(a, lay, fill):
+    """the same values behind a different memory layout; -> (array handed to the code, buffer that owns the memory)"""
     import numpy as np
-    sc = np.array(c["scores"], dtype=float)
+    n = len(a)
+    if lay == "strided":
+        big = np.full(2 * n, fill, dtype=a.dtype)
+        big[::2] = a
+        return big[::2], big
+    if lay == "negstride":
+        big = a[::-1].copy()
+        return big[::-1], big
+    if lay == "col2d":
+        big = np.full((n, 3), fill, dtype=a.dtype)
+        big[:, 1] = a
+        return big[:, 1], big
+    if lay == "readonly":
+        b = a.copy()
+        b.setflags(write=False)
+        return b, b
+    return a, a
+
+
+def _arrays2(c):
+    """-> (scores, targets, owning buffers) exactly as they are handed to the implementation"""
+    import numpy as np
+    f = _form(c)
+    sc = np.array(c["scores"], dtype=np.dtype(_DT[f.get("sd", "f8")]))
     tg = np.array([bool(v) for v in c["targets"]], dtype=bool)
+    lay = f.get("lay", "contig")
+    fill = (sc.max() + 1000) if len(sc) else 0
+    sc, scb = _lay(sc, lay, fill)
+    tg, tgb = _lay(tg, lay, True)
+    return sc, tg, (scb, tgb)
+
+
+def _arrays(c):
+    sc, tg, _ = _arrays2(c)
     return sc, tg
+
+
+def _call_api(c, sc, tg):
+    from mokapot import peps as mpeps, qvalues as mq
+    alg = c["alg"]
+    call = _form(c).get("call", "pos")
+    if c["fn"] == "peps":
+        if call == "kw":
+            return mpeps.peps_from_scores(scores=sc, targets=tg, pep_algorithm=alg)
+        if call == "default" and alg == "qvality":
+            return mpeps.peps_from_scores(sc, tg)
+        return mpeps.peps_from_scores(sc, tg, alg)
+    if call == "kw":
+        return mq.qvalues_from_scores(scores=sc, targets=tg, qvalue_algorithm=alg)
+    return mq.qvalues_from_scores(sc, tg, alg)
 
 
 def _run(c):
@@ -202,27 +290,57 @@ def _run(c):
     if key in _CACHE:
         return _CACHE[key]
     import numpy as np
-    from mokapot import peps as mpeps, qvalues as mq
-    sc, tg = _arrays(c)
-    sc0 = sc.copy()
+    import triqler.qvality
+    f = _form(c)
+    sc, tg, bufs = _arrays2(c)
+    snap = [b.copy() for b in bufs]
     res = {"out": None, "err": None, "rec": None, "mutated": False}
     import warnings
-    with recording() as rec, np.errstate(all="ignore"), warnings.catch_warnings():
-        warnings.simplefilter("ignore")
-        try:
-            if c["fn"] == "peps":
-                out = mpeps.peps_from_scores(sc, tg, c["alg"])
-            else:
-                out = mq.qvalues_from_scores(sc, tg, c["alg"])
-            res["out"] = [float(v) for v in np.asarray(out, dtype=float).ravel()]
-        except BaseException as e:   # noqa: triqler calls sys.exit on empty classes
-            if isinstance(e, (KeyboardInterrupt, MemoryError)):
-                raise
-            res["err"] = "SystemExit" if isinstance(e, SystemExit) else lib.err_kind(e)
-            res["msg"] = f"{type(e).__name__}: {e}"[:200]
-            res["where"] = _raised_in(e)
-    res["rec"] = rec
-    res["mutated"] = not np.array_equal(sc, sc0)
+    verb0 = triqler.qvality.VERB
+    pre = f.get("pre") or {}
+    try:
+        if pre.get("seed") is not None:
+            np.random.seed(int(pre["seed"]))
+        if "verb" in pre:
+            triqler.qvality.VERB = int(pre["verb"])
+        with recording() as rec, np.errstate(all="ignore"), warnings.catch_warnings():
+            warnings.simplefilter("ignore")
+            try:
+                out = _call_api(c, sc, tg)
+                res["out"] = [float(v) for v in np.asarray(out, dtype=float).ravel()]
+                res["out_shape"] = list(np.shape(out))
+            except BaseException as e:   # noqa: triqler calls sys.exit on empty classes
+                if isinstance(e, (KeyboardInterrupt, MemoryError)):
+                    raise
+                res["err"] = "SystemExit" if isinstance(e, SystemExit) else lib.err_kind(e)
+                res["msg"] = f"{type(e).__name__}: {e}"[:200]
+                res["where"] = _raised_in(e)
+        res["rec"] = rec
+        res["mutated"] = not all(np.array_equal(b, s0) for b, s0 in zip(bufs, snap))
+        if f.get("rep") and res["err"] is None:
+            with np.errstate(all="ignore"), warnings.catch_warnings():
+                warnings.simplefilter("ignore")
+                other = dict(c, alg=f["rep"], fn="peps" if f["rep"] in PEP_ALGS else "qvals", form={})
+                o_sc, o_tg = _arrays(other)
+                try:
+                    _call_api(other, o_sc[::-1].copy(), o_tg[::-1].copy())
+                except BaseException as e:  # noqa: only its side effects matter here
+                    if isinstance(e, (KeyboardInterrupt, MemoryError)):
+                        raise
+                sc2, tg2, _ = _arrays2(c)
+                try:
+                    out2 = [float(v) for v in np.asarray(_call_api(c, sc2, tg2), dtype=float).ravel()]
+                    res["repeatable"] = bool(np.array_equal(np.array(res["out"]), np.array(out2), equal_nan=True))
+                    if not res["repeatable"]:
+                        j = [k for k, (a, b) in enumerate(zip(res["out"], out2)) if not (a == b or (a != a and b != b))][:1]
+                        res["repeat_diff"] = (j[0], res["out"][j[0]], out2[j[0]]) if j else ("length", len(res["out"]), len(out2))
+                except BaseException as e:  # noqa
+                    if isinstance(e, (KeyboardInterrupt, MemoryError)):
+                        raise
+                    res["repeatable"] = False
+                    res["repeat_diff"] = ("raised", f"{type(e).__name__}: {e}"[:120], None)
+    finally:
+        triqler.qvality.VERB = verb0
     _CACHE[key] = res
     return res
 
@@ -293,7 +411,14 @@ def oracles(c, run):
               and sorted(qd.tolist()) == sorted(float(v) for v, t in zip(sc, tgl) if not t),
               "qvality: triqler was not given (scores[targets], scores[~targets])")
         _need(qk.get("includeDecoys") is True and not qa, "qvality: triqler was not asked for one value per PSM (includeDecoys=True)")
-        fs = _fracs(rec.mono[-1], "triqler spline")
+        raw = [float(v) for v in rec.mono[-1]]
+        if any(v == math.inf for v in raw):
+            # exp() of a large spline value overflows to +inf; qvality.monotonize = min(1, running max) maps +inf and
+            # every finite value >= 1 to the same PEP 1, so the model is given such a finite value instead
+            big = max([1.0] + [v for v in raw if v == v and abs(v) != math.inf]) + 1.0
+            STATS["spline_values_inf_replaced"] = STATS.get("spline_values_inf_replaced", 0) + sum(1 for v in raw if v == math.inf)
+            raw = [big if v == math.inf else v for v in raw]
+        fs = _fracs(raw, "triqler spline")
         _need(len(fs) == n, "qvality: the spline returned a value count different from the number of PSMs")
         _need(all(v >= 0 for v in fs), "qvality: spline value f < 0")
         ss = sorted(sc_fr, reverse=True)
@@ -309,7 +434,7 @@ def oracles(c, run):
         grid = _fracs(it[0], "interpolation grid")
         _need(all(grid[i] < grid[i + 1] for i in range(len(grid) - 1)), f"{alg}: np.interp was given a grid (xp) that is not strictly increasing")
         _need(len(grid) == len(d), f"{alg}: grid and nnls solution differ in length")
-        rel = Fraction(1, 10 ** 12)
+        rel = _DT_EPS[_form(c).get("sd", "f8")]       # grid arithmetic happens in the dtype of the scores
         if alg == "hist_nnls":
             _need(len(rec.bin_edges) >= 1, "hist_nnls: np.histogram_bin_edges was not called")
             be = _fracs(rec.bin_edges[0], "histogram bin edges")
@@ -419,6 +544,142 @@ ORDERS = ("shuffled", "desc", "asc", "targets-first", "targets-desc-then-decoys-
           "class-sorted-interleaved", "desc-one-swap")
 
 
+# ---- second estimator stream: value domains, dtypes, layouts, call styles, global state (white-box review)
+F_SHAPES = ("mix", "rounded", "integer", "half-ties", "t3", "gap", "expo", "proba", "lognormal", "outlier")
+ONE_SIDED = ("expo", "proba", "lognormal")     # decoy scores pile up at the low end of the range
+AFFINES = ("id", "x1024", "x2^-10", "+10000", "-100", "unit")
+INT_AFFINES = ("id", "x1024", "+10000", "-100")
+F_DTYPES = ("f8", "f4", "f8", "f4", "i8", "f8", "f4", "i4")
+LAYOUTS = ("contig", "strided", "readonly", "negstride", "col2d")
+CALLS = ("pos", "kw", "default")
+FTS = (0.2, 0.35, 0.5, 0.65, 0.8)
+PRE_SEEDS = (None, 0, 987654321)
+PRE_VERBS = (3, 0, 2)
+
+
+def _scores2(rng, n, shape, ft):
+    """-> (scores, targets): like _scores, with a chosen class balance and more families of distributions"""
+    tg = [1 if rng.random() < ft else 0 for _ in range(n)]
+    for j in range(min(n, 30)):
+        tg[j] = j % 2           # at least 15 PSMs of each class
+    rng.shuffle(tg)
+    sc = []
+    for t in tg:
+        good = bool(t) and rng.random() < 0.55
+        if shape == "t3":                       # heavy tails
+            z = rng.gauss(0, 1)
+            chi = sum(rng.gauss(0, 1) ** 2 for _ in range(3)) / 3
+            s = (3.0 if good else 0.0) + z / math.sqrt(chi)
+        elif shape == "gap":                    # two well separated clusters: empty histogram bins in between
+            s = rng.gauss(30.0 if good else 0.0, 1.0)
+        elif shape == "expo":
+            s = 2.0 + rng.expovariate(0.5) if good else rng.expovariate(1.0)
+        elif shape == "proba":                  # scores of a probabilistic classifier: piled up near 0 and 1
+            s = 1.0 / (1.0 + math.exp(-3.0 * rng.gauss(4.0 if good else -1.0, 1.0)))
+        elif shape == "lognormal":
+            s = rng.lognormvariate(2.0, 0.5) if good else rng.lognormvariate(0.0, 0.5)
+        else:
+            s = rng.gauss(3.0 if good else 0.0, 1.0)
+        sc.append(s)
+    if shape == "outlier":
+        jt = [j for j in range(n) if tg[j]]
+        jd = [j for j in range(n) if not tg[j]]
+        sc[rng.choice(jt)] = 43.0 + rng.random()
+        sc[rng.choice(jd)] = -41.0 - rng.random()
+    if shape == "rounded":
+        sc = [round(s, 1) for s in sc]
+    elif shape == "integer":
+        sc = [float(round(s * 4)) for s in sc]
+    elif shape == "half-ties":
+        pool = sc[: max(5, n // 4)]
+        sc = [rng.choice(pool) if rng.random() < 0.5 else s for s in sc]
+    elif shape in ("t3", "expo", "lognormal", "gap") and rng.random() < 0.3:
+        sc = [round(s, 1) for s in sc]
+    return sc, tg
+
+
+def _affine(sc, aff):
+    if aff == "x1024":
+        return [s * 1024.0 for s in sc]
+    if aff == "x2^-10":
+        return [s / 1024.0 for s in sc]
+    if aff == "+10000":
+        return [s + 10000.0 for s in sc]
+    if aff == "-100":
+        return [s - 100.0 for s in sc]          # every score negative
+    if aff == "unit":
+        lo, hi = min(sc), max(sc)
+        return [(s - lo) / (hi - lo) for s in sc] if hi > lo else list(sc)
+    return list(sc)
+
+
+def _cycle(rng, values, k):
+    """k picks in which every value occurs (as evenly as possible), in an order drawn from rng"""
+    out = []
+    while len(out) < k:
+        v = list(values)
+        rng.shuffle(v)
+        out += v
+    return out[:k]
+
+
+def gen_forms(ctx):
+    import numpy as np
+    rng = ctx.sub("estimator-forms")
+    K = 160 if ctx.thorough else 40
+    shapes = _cycle(rng, F_SHAPES, K)
+    affs = _cycle(rng, AFFINES, K)
+    dts = _cycle(rng, F_DTYPES, K)
+    lays = _cycle(rng, LAYOUTS, K)
+    calls = _cycle(rng, CALLS, K)
+    fts = _cycle(rng, FTS, K)
+    orders = _cycle(rng, ORDERS, K)
+    sizes = _cycle(rng, (60, 100, 150, 250, 400, 499, 500, 501, 80, 120) + ((1000, 3000, 5000) if ctx.thorough else (1000,)), K)
+    cases = []
+    for k in range(K):
+        shape, aff, sd, n = shapes[k], affs[k], dts[k], sizes[k]
+        if sd in ("i8", "i4"):
+            shape = "integer"
+            aff = aff if aff in INT_AFFINES else rng.choice(INT_AFFINES)
+        sc, tg = _scores2(rng, n, shape, fts[k])
+        sc = _affine(sc, aff)
+        if sd == "f4":
+            sc = [float(np.float32(s)) for s in sc]
+        sc, tg = _order(rng, sc, tg, orders[k])
+        pre = {"seed": rng.choice(PRE_SEEDS), "verb": rng.choice(PRE_VERBS)}
+        for alg in PEP_ALGS + Q_ALGS:
+            call = calls[k]
+            if call == "default" and alg != "qvality":
+                call = "kw" if alg in PEP_ALGS else "pos"
+            form = {"sd": sd, "lay": lays[k], "call": call, "pre": pre}
+            tags = ["estimator", "forms", alg, "shape=" + shape, "order=" + orders[k], "affine=" + aff, "dtype=" + sd,
+                    "layout=" + lays[k], "call=" + call, "targets=%d%%" % round(100 * fts[k]),
+                    "family=one-sided" if shape in ONE_SIDED else "family=two-sided",
+                    "n<=100" if n <= 100 else "n<=500" if n <= 500 else "n<=2000" if n <= 2000 else "n<=5000"]
+            if n in (499, 500, 501):
+                tags.append("n=500+-1")
+            if k % 4 == 0:
+                form["rep"] = rng.choice([a for a in PEP_ALGS + Q_ALGS if a != alg])
+                tags.append("repeated-call")
+            cases.append({"fn": "peps" if alg in PEP_ALGS else "qvals", "alg": alg, "scores": sc, "targets": tg,
+                          "form": form, "tags": tags})
+    # fixed data sets of repo_fixes/C06-finding-kde-nnls-isolated-outlier-order.py (known finding KEY_KDE_OUTLIER): a bulk
+    # of 500 PSMs, one target 40 sd above and one decoy 41 sd below it, in the given (unsorted) order
+    for seed in (27, 31):
+        g = np.random.default_rng(seed)
+        n = 500
+        t = g.random(n) < 0.35
+        good = t & (g.random(n) < 0.55)
+        s = np.where(good, g.normal(3, 1, n), g.normal(0, 1, n))
+        s[np.flatnonzero(t)[0]] = 43.5
+        s[np.flatnonzero(~t)[0]] = -41.5
+        for alg in PEP_ALGS + Q_ALGS:
+            cases.append({"fn": "peps" if alg in PEP_ALGS else "qvals", "alg": alg, "scores": [float(v) for v in s],
+                          "targets": [int(v) for v in t], "form": {},
+                          "tags": ["estimator", "forms", alg, "shape=outlier", "order=shuffled", "isolated-outlier-probe", "n<=500"]})
+    return cases
+
+
 def weak_orderings(n):
     for v in itertools.product(range(n), repeat=n):
         if set(v) == set(range(max(v) + 1)):
@@ -480,6 +741,7 @@ def gen(ctx):
                 cases.append({"fn": "peps" if alg in PEP_ALGS else "qvals", "alg": alg, "scores": sc, "targets": tg,
                               "tags": ["estimator", alg, "shape=" + shape, "order=" + order,
                                        "n<=100" if n <= 100 else "n<=500" if n <= 500 else "n<=2000"]})
+    cases += gen_forms(ctx)
     # best-scoring row is a decoy / a target explicitly (from_counts division by zero)
     for top in (0, 1):
         for _ in range(4 if ctx.thorough else 2):
@@ -563,6 +825,95 @@ def decode(c, t):
 
 
 # ----------------------------------------------------------------------------- implementation side
+KEY_PI0 = "pi0-by-slope:decoy-mode-at-low-end"
+PI0_FINDING_CASES = {}
+_PI0_CLASS = {}
+
+
+def _decoy_mode_at_low_end(c):
+    """Input class of the known finding KEY_PI0, computed from the INPUT with numpy / scipy only (never with the
+    code under test): the decoy density that the estimator looks at (histogram over np.histogram_bin_edges(scores,
+    'auto'), or the Gaussian KDE on 500 equally spaced points for kde_nnls) reaches 90 % of its maximum already at
+    its first (lowest-score) entry, so that estimate_pi0_by_slope has no point left of the decoy mode to fit."""
+    key = lib.stable_hash([c["alg"] in ("kde_nnls",), c["alg"] == "from_counts", c["scores"], c["targets"], _form(c).get("sd", "f8")])
+    if key not in _PI0_CLASS:
+        import numpy as np
+        import warnings
+        res = False
+        try:
+            sc, tg = _arrays(dict(c, form={"sd": _form(c).get("sd", "f8")}))
+            with np.errstate(all="ignore"), warnings.catch_warnings():
+                warnings.simplefilter("ignore")
+                if c["alg"] == "kde_nnls":
+                    import scipy.stats
+                    grid = np.linspace(min(sc), max(sc), num=500)
+                    dens = scipy.stats.gaussian_kde(sc[~tg]).pdf(grid)
+                else:
+                    edges = np.histogram_bin_edges(sc, bins="auto")
+                    dens, _ = np.histogram(sc[~tg], bins=edges, density=(c["alg"] == "from_counts"))
+                res = bool(len(dens) > 0 and int(np.argmax(dens >= 0.9 * np.max(dens))) == 0)
+        except Exception:  # noqa: cannot be classified -> not in the class
+            res = False
+        _PI0_CLASS[key] = res
+    return _PI0_CLASS[key]
+
+
+def _pi0_finding(c, i):
+    """the implementation failed in np.polyfit on an empty vector AND the input is in the class of KEY_PI0"""
+    return (i is not None and i[0] == "fit-failed" and c.get("alg") in ("kde_nnls", "hist_nnls", "from_counts", "from_peps")
+            and i[1] == "TypeError" and str(i[2]).endswith(":polyfit") and len(i) > 3 and "expected non-empty vector" in str(i[3])
+            and len(c["scores"]) == len(c["targets"]) and _decoy_mode_at_low_end(c))
+
+
+KEY_KDE_OUTLIER = "kde_nnls:isolated-outlier-order-sensitive"
+KDE_OUTLIER_CANDIDATES = []
+
+
+def _isolated(c):
+    """indices of the PSMs at either end of the score range that are farther than 5 interquartile ranges from the
+    next score towards the bulk (computed from the input alone)"""
+    sc = c["scores"]
+    n = len(sc)
+    if n < 8:
+        return set()
+    srt = sorted(range(n), key=lambda j: sc[j])
+    vals = [sc[j] for j in srt]
+    iqr = vals[(3 * n) // 4] - vals[n // 4]
+    if not iqr > 0:
+        return set()
+    out = set()
+    k = 0
+    while k < n - 1 and vals[k + 1] - vals[k] > 5 * iqr:
+        out.add(srt[k])
+        k += 1
+    k = n - 1
+    while k > 0 and vals[k] - vals[k - 1] > 5 * iqr:
+        out.add(srt[k])
+        k -= 1
+    return out
+
+
+def _order_sensitive_only_at_outliers(c, i):
+    """kde_nnls returned other values for the same PSMs passed best first, and ONLY for isolated outlier PSMs
+    (input class of the known finding KEY_KDE_OUTLIER)"""
+    if c.get("alg") != "kde_nnls" or i is None or i[0] != "ok" or isinstance(i[1], tuple) or not _valid(c):
+        return False
+    iso = _isolated(c)
+    if not iso:
+        return False
+    sc = c["scores"]
+    n = len(sc)
+    if len(i[1]) != n:
+        return False
+    order = sorted(range(n), key=lambda j: -sc[j])
+    r2 = _run(dict(c, scores=[sc[j] for j in order], targets=[c["targets"][j] for j in order]))
+    if r2["err"] is not None or r2["out"] is None or len(r2["out"]) != n:
+        return False
+    differ = [j for pos, j in enumerate(order)
+              if not abs(float(i[1][j]) - r2["out"][pos]) <= 1e-6 * max(1.0, abs(r2["out"][pos]))]
+    return bool(differ) and set(differ) <= iso
+
+
 def _canon_floats(vals):
     """list of floats -> canonical form: finite -> list of Fractions; all +inf -> ('allinf', n); else ('nonfinite', ...)"""
     if vals and all(v == math.inf for v in vals):
@@ -590,16 +941,28 @@ def impl(c):
         ESTIMATOR_CASES[c["alg"]] = ESTIMATOR_CASES.get(c["alg"], 0) + 1
     if run["err"] is not None:
         if len(c["scores"]) == len(c["targets"]) and str(run.get("where", "")).startswith("library:"):
-            FIT_FAILURES.setdefault(c["alg"], []).append((len(c["scores"]), run["msg"], run["where"]))
-            return ("fit-failed", run["err"], run["where"])
+            r = ("fit-failed", run["err"], run["where"], run.get("msg", ""))
+            if _pi0_finding(c, r):
+                PI0_FINDING_CASES.setdefault(c["alg"], []).append(len(c["scores"]))
+            else:
+                FIT_FAILURES.setdefault(c["alg"], []).append((len(c["scores"]), run["msg"], run["where"]))
+            return r
         return ("err", run["err"])
     if run["mutated"]:
         return ("input-mutated",)
+    if run.get("repeatable") is False:
+        return ("not-repeatable", lib.jsonable(run.get("repeat_diff")))
+    if run.get("out_shape") is not None and run["out_shape"] != [len(c["scores"])]:
+        return ("bad-shape", run["out_shape"])
     if len(c["scores"]) == len(c["targets"]):
         orc, why = _oracles_or_none(c, run)
         if orc is None:
             return ("contract", why)
     canon = _canon_floats(run["out"])
+    if c["alg"] == "kde_nnls" and "pipeline" not in c.get("tags", []) and canon[0] == "finite" and _isolated(c):
+        KDE_OUTLIER_CANDIDATES.append(c)
+    if canon[0] != "finite" and "pipeline" not in c.get("tags", []):
+        NONFINITE_RESULTS[f"{c['alg']}:{canon[0]}"] = NONFINITE_RESULTS.get(f"{c['alg']}:{canon[0]}", 0) + 1
     if c["alg"] == "from_counts":
         return ("ok", canon)
     if canon[0] == "finite":
@@ -624,6 +987,8 @@ def same(c, m, i):
             return False
         return m[1] == i[1] if m[0] == "err" else _close_list(i[1], m[1])
     if i[0] == "fit-failed":
+        if _pi0_finding(c, i):
+            return False                # a defect of the implementation on a valid input (known finding KEY_PI0)
         return m == ("no-oracle",)      # the library fit raised: nothing to post-process (counted, bounded in extra_checks)
     if m[0] != i[0]:
         # hist_nnls: 0/0 -> NaN in the implementation, Err EValue in the model
@@ -648,7 +1013,7 @@ def nontrivial(c):
     sc = c["scores"]
     if len(sc) != len(c["targets"]):
         return True
-    return len(set(sc)) < len(sc) or any(sc[j] < sc[j + 1] for j in range(len(sc) - 1))
+    return _valid(c) and (len(set(sc)) < len(sc) or any(sc[j] < sc[j + 1] for j in range(len(sc) - 1)))
 
 
 # ----------------------------------------------------------------------------- the property on the implementation's output
@@ -673,7 +1038,14 @@ def oracle(c, i):
     call = (f"mokapot.peps.peps_from_scores(scores, targets, {alg!r})" if fn == "peps"
             else f"mokapot.qvalues.qvalues_from_scores(scores, targets, {alg!r})")
     if i[0] == "fit-failed":
+        if _pi0_finding(c, i):
+            return f"{call} raised {i[3]} on a valid input whose decoy scores pile up at the low end of the score range"
         return None
+    if i[0] == "not-repeatable":
+        return (f"{call}: the same call on the same data returned different values after another estimator had been "
+                f"called in between (first difference: {i[1]!r})")
+    if i[0] == "bad-shape":
+        return f"{call} returned an array of shape {i[1]} for {len(c['scores'])} PSMs"
     if i[0] == "err":
         run = _run(c)
         return f"{call} raised {run.get('msg', i[1])} on a valid input ({len(c['scores'])} PSMs with targets and decoys)"
@@ -827,6 +1199,280 @@ def _pipeline_checks(ctx):
     return fails, {"pipeline_result_files_checked": nfiles, "pipeline_rows_checked": nrows}
 
 
+# ---- second pipeline stream: the options of assign_confidence the PEP column can depend on (white-box review)
+def _pipe_table(seed, n, desc, id0):
+    """One collection: a PIN-like table in arbitrary row order with unique spectra, some peptides matched by two PSMs
+    of the same class with different scores, tied scores.  -> (DataFrame, rows) with rows[PSMId] = (ranking score,
+    is_target, peptide)."""
+    import numpy as np
+    import pandas as pd
+    rng = np.random.default_rng(seed)
+    tg = rng.random(n) < rng.choice([0.4, 0.5, 0.65])
+    sc = np.where(tg & (rng.random(n) < 0.5), rng.normal(3, 1, n), rng.normal(0, 1, n))
+    sc = np.round(sc, 2)   # some ties
+    pep = ["PEP%dK" % (id0 + i) for i in range(n)]
+    for _ in range(n // 5):            # second PSM of a peptide: same class, different score
+        i, j = (int(v) for v in rng.integers(0, n, 2))
+        if i != j and tg[i] == tg[j] and sc[i] != sc[j] and pep.count(pep[i]) == 1 and pep.count(pep[j]) == 1:
+            pep[j] = pep[i]
+    ids = np.arange(n) + id0
+    df = pd.DataFrame({
+        "specid": ids, "target": tg.astype(int), "scannr": ids,
+        "calcmass": rng.uniform(500, 2000, n), "expmass": ids + 500.5,
+        "peptide": pep, "proteins": ["_dummy"] * n,
+        "score": sc if desc else -sc,          # lower-is-better collections carry the negated score as their feature
+        "filename": "t.mzML", "ret_time": rng.uniform(0, 100, n), "charge": rng.choice([2, 3], n)})
+    df = df.sample(frac=1, random_state=int(seed) % (2 ** 31))
+    rows = {int(i): (float(s), bool(t), p) for i, s, t, p in zip(ids, sc, tg, pep)}
+    return df, rows
+
+
+def _pipe_dataset(df, path):
+    from mokapot import OnDiskPsmDataset
+    df.to_csv(path, sep="\t", index=False)
+    return OnDiskPsmDataset(
+        filename=path, target_column="target", spectrum_columns=["scannr", "expmass"], peptide_column="peptide",
+        feature_columns=["score"], filename_column="filename", scan_column="scannr", calcmass_column="calcmass",
+        expmass_column="expmass", rt_column="ret_time", charge_column="charge", columns=list(df.columns),
+        protein_column="proteins", metadata_columns=["specid", "scannr", "expmass", "peptide", "proteins", "target"],
+        metadata_column_types=["int", "int", "float", "string", "string", "int"], level_columns=["peptide"],
+        specId_column="specid", spectra_dataframe=df[["scannr", "expmass", "target"]])
+
+
+def _pipe_run(spec, tmp):
+    """Run assign_confidence as spec says.  -> (per collection: rows, {file name: DataFrame}), or raises."""
+    from pathlib import Path
+    import numpy as np
+    import pandas as pd
+    import mokapot.confidence as mconf
+    from mokapot import assign_confidence
+    tmp = Path(tmp)
+    colls = []
+    for k, (n, seed, desc) in enumerate(zip(spec["ns"], spec["seeds"], spec["descs"])):
+        df, rows = _pipe_table(seed, n, desc, 100000 * (k + 1))
+        colls.append((df, rows, _pipe_dataset(df, tmp / f"in{k}.pin")))
+    prefixes = [None] if len(colls) == 1 else ["c%d" % k for k in range(len(colls))]
+    saved = mconf.CONFIDENCE_CHUNK_SIZE
+    try:
+        if spec["chunk"]:
+            mconf.CONFIDENCE_CHUNK_SIZE = int(spec["chunk"])
+        kw = dict(prefixes=prefixes, descs=[bool(d) for d in spec["descs"]], dest_dir=tmp, max_workers=int(spec["workers"]),
+                  eval_fdr=0.5, peps_algorithm=spec["alg"])
+        if spec["decoys"] is not None:
+            kw["decoys"] = bool(spec["decoys"])
+        if spec["peps_error"]:
+            kw["peps_error"] = True
+        if spec["qalg"] != "tdc":
+            kw["qvalue_algorithm"] = spec["qalg"]
+        if spec["explicit_scores"]:
+            kw["scores"] = [np.array(df["score"].values, dtype=float) for df, _, _ in colls]
+        if spec.get("dedup") is False:
+            kw["deduplication"] = False      # (spectra are unique: the rows stay the same)
+        if spec.get("rollup") is False:
+            kw["do_rollup"] = False          # only the PSM level is written
+        assign_confidence([ds for _, _, ds in colls], **kw)
+    finally:
+        mconf.CONFIDENCE_CHUNK_SIZE = saved
+    out = []
+    for k, (df, rows, _) in enumerate(colls):
+        files = {}
+        pre = "" if prefixes[k] is None else prefixes[k] + "."
+        for lvl in ("psms", "peptides"):
+            for cls in ("targets", "decoys"):
+                f = tmp / f"{pre}{cls}.{lvl}"
+                files[f"{cls}.{lvl}"] = pd.read_csv(f, sep="\t") if f.exists() else None
+        out.append((rows, files))
+    return out
+
+
+def _pipe_expected_level(rows, lvl):
+    """PSMIds of the level in descending ranking-score order (ties: by PSMId)"""
+    ids = sorted(rows, key=lambda i: (-rows[i][0], i))
+    if lvl == "psms":
+        return ids
+    seen, keep = set(), []
+    for i in ids:                      # best PSM per peptide (duplicated peptides never tie, see _pipe_table)
+        if rows[i][2] not in seen:
+            seen.add(rows[i][2])
+            keep.append(i)
+    return keep
+
+
+def _pipe_model(fn, alg, ids, rows):
+    case = {"fn": fn, "alg": alg, "scores": [rows[i][0] for i in ids], "targets": [int(rows[i][1]) for i in ids],
+            "tags": ["pipeline"]}
+    m = decode(case, lib.Toks(lib.run_driver([encode(case)])[0]))
+    i = impl(case)
+    return case, m, i
+
+
+def _pipe_check(spec, result, what):
+    """-> (list of failure dicts, rows checked)"""
+    fails, nrows = [], 0
+
+    def bad(msg, case=None):
+        d = {"what": f"{what}: {msg}"[:600]}
+        if case is not None:
+            d["failing_input"] = case
+        fails.append(d)
+
+    want_decoys = bool(spec["decoys"])
+    for k, (rows, files) in enumerate(result):
+        for lvl in ("psms", "peptides"):
+            if lvl != "psms" and spec.get("rollup") is False:
+                continue
+            ids = _pipe_expected_level(rows, lvl)
+            case, m, i = _pipe_model("peps", spec["alg"], ids, rows)
+            if not same(case, m, i):
+                bad(f"model and peps_from_scores disagree on the {lvl} of collection {k}", case)
+                continue
+            if m[0] != "ok":
+                if i[0] != "fit-failed":
+                    bad(f"no PEPs for the {lvl} of collection {k}: {i!r}"[:200], case)
+                continue
+            exp_pep = dict(zip(ids, m[1]))
+            exp_q = None
+            if spec["qalg"] in Q_ALGS:
+                qcase, qm, qi = _pipe_model("qvals", spec["qalg"], ids, rows)
+                tied = len(set(qcase["scores"])) < len(ids)
+                if same(qcase, qm, qi) and qm[0] == "ok" and not (spec["qalg"] == "from_counts" and tied):
+                    v = qm[1]
+                    if spec["qalg"] == "from_counts":
+                        v = v[1] if v[0] == "finite" else None
+                    exp_q = dict(zip(ids, v)) if v is not None else None
+            seen_cols = {}
+            for cls, is_t in (("targets", True), ("decoys", False)):
+                name = f"{cls}.{lvl}"
+                df = files[name]
+                if not is_t and not want_decoys:
+                    continue            # (a decoy file found here is a leftover of the earlier run of a "stale" spec)
+                if df is None:
+                    bad(f"collection {k}: result file {name} is missing")
+                    continue
+                want = [j for j in ids if rows[j][1] == is_t]
+                got = [int(v) for v in df["PSMId"]]
+                if sorted(got) != sorted(want):
+                    bad(f"collection {k}: {name} holds {len(got)} rows, expected the {len(want)} {cls} of the level "
+                        f"(first missing/unexpected PSMId: {sorted(set(got) ^ set(want))[:1]})", case)
+                    continue
+                for psm, s, p, q in zip(got, df["score"], df["posterior_error_prob"], df["q-value"]):
+                    nrows += 1
+                    if float(s) != rows[psm][0]:
+                        bad(f"collection {k}: {name}: PSM {psm} has score {float(s)!r} in the file, {rows[psm][0]!r} in the input", case)
+                        break
+                    p = float(p)
+                    if p != p or not _close(Fraction(p), exp_pep[psm]):
+                        bad(f"posterior_error_prob column of {name} (collection {k}) is not aligned with its rows: PSM {psm} "
+                            f"(score {rows[psm][0]!r}) has {p!r}, the estimator's value for that PSM is {float(exp_pep[psm])!r}", case)
+                        break
+                    q = float(q)
+                    if spec["qalg"] in Q_ALGS and (q != q or q < 0):
+                        bad(f"q-value column of {name} (collection {k}): PSM {psm} has {q!r}", qcase)
+                        break
+                    if exp_q is not None and (abs(q) == math.inf or not _close(Fraction(q), exp_q[psm])):
+                        bad(f"q-value column of {name} (collection {k}, {spec['qalg']}) is not aligned with its rows: PSM {psm} "
+                            f"(score {rows[psm][0]!r}) has {q!r}, the estimator's value for that PSM is {float(exp_q[psm])!r}", qcase)
+                        break
+                else:
+                    seen_cols.update({psm: float(p) for psm, p in zip(got, df["posterior_error_prob"])})
+            if want_decoys and len(seen_cols) == len(ids):
+                msg = oracle(case, ("ok", [Fraction(seen_cols[j]) for j in ids]))     # the property on the column itself
+                if msg:
+                    bad(f"posterior_error_prob column of the {lvl} files of collection {k}: {msg}", case)
+    return fails, nrows
+
+
+def _pipe_in_pi0_class(spec):
+    """some level of some collection is an input of the known finding KEY_PI0 for an estimator the run uses"""
+    algs = [a for a in (spec["alg"], spec["qalg"]) if a in ("kde_nnls", "hist_nnls", "from_counts", "from_peps")]
+    for k, (n, seed, desc) in enumerate(zip(spec["ns"], spec["seeds"], spec["descs"])):
+        _, rows = _pipe_table(seed, n, desc, 100000 * (k + 1))
+        for lvl in ("psms", "peptides"):
+            ids = _pipe_expected_level(rows, lvl)
+            for alg in algs:
+                if _decoy_mode_at_low_end({"alg": alg, "scores": [rows[i][0] for i in ids], "targets": [int(rows[i][1]) for i in ids]}):
+                    return True
+    return False
+
+
+def _pipe_all_one(spec):
+    """peps_error=True may raise only if the PEPs of some level really are all 1"""
+    for k, (n, seed, desc) in enumerate(zip(spec["ns"], spec["seeds"], spec["descs"])):
+        _, rows = _pipe_table(seed, n, desc, 100000 * (k + 1))
+        for lvl in ("psms", "peptides"):
+            case, m, i = _pipe_model("peps", spec["alg"], _pipe_expected_level(rows, lvl), rows)
+            if m[0] == "ok" and same(case, m, i) and all(v == 1 for v in m[1]):
+                return True
+    return False
+
+
+PIPE_CHUNKS = (None, 37, 64, 100)
+PIPE_DECOYS = (True, False, None)       # None: argument left out (the default: no decoy files)
+PIPE_QALGS = ("tdc", "from_peps", "from_counts")
+PIPE_WORKERS = (1, 2, 3)
+
+
+def _pipeline2_checks(ctx):
+    import tempfile
+    import warnings
+    rng = ctx.sub("pipeline-options")
+    K = 36 if ctx.thorough else 12
+    algs = _cycle(rng, PEP_ALGS, K)
+    chunks = _cycle(rng, PIPE_CHUNKS, K)
+    decs = _cycle(rng, PIPE_DECOYS, K)
+    qalgs = _cycle(rng, PIPE_QALGS, K)
+    works = _cycle(rng, PIPE_WORKERS, K)
+    perr = _cycle(rng, (False, True), K)
+    expl = _cycle(rng, (False, True), K)
+    ncoll = _cycle(rng, (1, 1, 2), K)
+    stale = _cycle(rng, (False, False, True), K)
+    dedup = _cycle(rng, (True, True, False), K)
+    rollup = _cycle(rng, (True, True, True, False), K)
+    fails, nrows, nruns = [], 0, 0
+    dist = {}
+    for k in range(K):
+        nc = ncoll[k]
+        descs = [rng.random() < 0.5 for _ in range(nc)]
+        if nc == 2 and k % 2 == 0:
+            descs = [True, False] if rng.random() < 0.5 else [False, True]     # collections ranked in opposite directions
+        spec = {"alg": algs[k], "chunk": chunks[k], "decoys": decs[k], "qalg": qalgs[k], "workers": works[k],
+                "peps_error": perr[k], "explicit_scores": expl[k], "descs": descs,
+                "ns": [rng.choice([200, 260, 330, 500]) for _ in range(nc)],
+                "seeds": [rng.randrange(10 ** 6) for _ in range(nc)], "stale": stale[k], "dedup": dedup[k], "rollup": rollup[k]}
+        for key in ("alg", "chunk", "decoys", "qalg", "workers", "peps_error", "explicit_scores", "stale", "dedup", "rollup"):
+            t = f"{key}={spec[key]}"
+            dist[t] = dist.get(t, 0) + 1
+        t = "collections=%d%s" % (nc, "" if nc == 1 else ("/mixed-descs" if len(set(descs)) > 1 else "/same-descs"))
+        dist[t] = dist.get(t, 0) + 1
+        what = "assign_confidence(" + ", ".join(f"{a}={spec[a]!r}" for a in ("alg", "qalg", "descs", "decoys", "peps_error", "chunk", "workers",
+                                                                              "explicit_scores", "stale", "dedup", "rollup", "ns", "seeds")) + ")"
+        try:
+            with tempfile.TemporaryDirectory() as tmp, warnings.catch_warnings():
+                warnings.simplefilter("ignore")
+                if spec["stale"]:      # an earlier run on OTHER data left its result files in the same directory
+                    other = dict(spec, ns=[150] * nc, seeds=[sd + 1 for sd in spec["seeds"]], decoys=True, stale=False,
+                                 alg="qvality", qalg="tdc", peps_error=False)
+                    _pipe_run(other, tmp)
+                result = _pipe_run(spec, tmp)
+        except BaseException as e:  # noqa
+            if isinstance(e, (KeyboardInterrupt, MemoryError)):
+                raise
+            if isinstance(e, TypeError) and "expected non-empty vector" in str(e) and _pipe_in_pi0_class(spec):
+                fails.append({"what": f"{what} raised {type(e).__name__}: {e}"[:500], "key": KEY_PI0})
+            elif not (spec["peps_error"] and isinstance(e, ValueError) and "all equal to 1" in str(e) and _pipe_all_one(spec)):
+                _, rows0 = _pipe_table(spec["seeds"][0], spec["ns"][0], spec["descs"][0], 100000)
+                ids0 = _pipe_expected_level(rows0, "psms")
+                fails.append({"what": f"{what} raised {type(e).__name__}: {e} (failing_input: the PSMs of the first collection)"[:500],
+                              "failing_input": {"fn": "peps", "alg": spec["alg"], "scores": [rows0[j][0] for j in ids0],
+                                                "targets": [int(rows0[j][1]) for j in ids0], "pipeline": spec, "tags": ["pipeline"]}})
+            continue
+        nruns += 1
+        f, r = _pipe_check(spec, result, what)
+        fails += f
+        nrows += r
+    return fails, {"pipeline_option_runs": nruns, "pipeline_option_rows_checked": nrows, "pipeline_option_distribution": dist}
+
+
 def _tie_order_probe():
     """Observation (reported, not a verdict): qvalues_from_counts on the same PSMs with two tied rows exchanged."""
     import numpy as np
@@ -849,22 +1495,98 @@ def _tie_order_probe():
         mq.estimate_pi0_by_slope = saved
 
 
+def _series_probe():
+    """Observation (reported, not a verdict; pandas Series are not the documented input type): the estimators on a
+    pandas Series whose index is not 0..n-1."""
+    import numpy as np
+    import pandas as pd
+    import warnings
+    from mokapot import peps as mpeps, qvalues as mq
+    rng = np.random.default_rng(5)
+    n = 300
+    tg = rng.random(n) < 0.5
+    sc = np.where(tg & (rng.random(n) < 0.5), rng.normal(3, 1, n), rng.normal(0, 1, n))
+    idx = rng.permutation(n)
+    out = {}
+    with np.errstate(all="ignore"), warnings.catch_warnings():
+        warnings.simplefilter("ignore")
+        for fn, algs in ((mpeps.peps_from_scores, PEP_ALGS), (mq.qvalues_from_scores, Q_ALGS)):
+            for alg in algs:
+                try:
+                    a = np.asarray(fn(sc, tg, alg), dtype=float)
+                    b = np.asarray(fn(pd.Series(sc, index=idx), pd.Series(tg, index=idx), alg), dtype=float)
+                    out[alg] = "same values as for arrays" if a.shape == b.shape and np.allclose(a, b, equal_nan=True) else \
+                        "DIFFERENT values than for the same numbers as arrays (max |diff| %.3g)" % float(np.nanmax(np.abs(a - b)))
+                except BaseException as e:  # noqa
+                    if isinstance(e, (KeyboardInterrupt, MemoryError)):
+                        raise
+                    out[alg] = f"{type(e).__name__}: {e}"[:120]
+    return out
+
+
+def _int_dtype_probe():
+    """Observation: qvality on integer-dtype scores (triqler writes the spline values into the score array)."""
+    import numpy as np
+    import warnings
+    from mokapot import peps as mpeps
+    rng = np.random.default_rng(6)
+    n = 300
+    tg = rng.random(n) < 0.5
+    sc = np.round(4 * np.where(tg & (rng.random(n) < 0.5), rng.normal(3, 1, n), rng.normal(0, 1, n))).astype(np.int64)
+    try:
+        with np.errstate(all="ignore"), warnings.catch_warnings():
+            warnings.simplefilter("ignore")
+            a = np.asarray(mpeps.peps_from_scores(sc.astype(float), tg, "qvality"), dtype=float)
+            b = np.asarray(mpeps.peps_from_scores(sc, tg, "qvality"), dtype=float)
+        return {"distinct_pep_values_float64_scores": int(len(set(a.tolist()))), "distinct_pep_values_int64_scores": int(len(set(b.tolist()))),
+                "max_abs_difference": float(np.max(np.abs(a - b))),
+                "note": "same numbers, other dtype: with integer scores the PEPs are exp(integer) (still monotone, in [0,1], aligned)"}
+    except BaseException as e:  # noqa
+        if isinstance(e, (KeyboardInterrupt, MemoryError)):
+            raise
+        return {"error": f"{type(e).__name__}: {e}"[:200]}
+
+
 def finding_key(c, m, i):
     """structural keys of behaviours that are reported as observations (see the evidence file)"""
     if c.get("fn") == "qvals" and c.get("alg") == "from_counts" and i is not None and i[0] == "ok" \
             and isinstance(i[1], tuple) and i[1][0] == "allinf":
         return "from_counts:best-row-decoy-gives-inf"
+    if c.get("fn") in ("peps", "qvals") and _pi0_finding(c, i):
+        return KEY_PI0
+    if c.get("fn") == "peps" and c.get("alg") == "kde_nnls" and _order_sensitive_only_at_outliers(c, i):
+        return KEY_KDE_OUTLIER
     return None
 
 
 def extra_checks(ctx):
     info = {"tolerance": "1e-9 relative/absolute on every value; exact equality for monotonize_simple"}
     info["observation_from_counts_tied_scores"] = _tie_order_probe()
+    info["observation_pandas_series_with_permuted_index"] = _series_probe()
+    info["observation_qvality_integer_dtype_scores"] = _int_dtype_probe()
     fails = []
     pf, pinfo = _pipeline_checks(ctx)
     fails += pf
     info.update(pinfo)
+    pf, pinfo = _pipeline2_checks(ctx)
+    fails += pf
+    info.update(pinfo)
     info["oracle_contract_checks"] = dict(STATS)
+    # known finding KEY_KDE_OUTLIER: kde_nnls inputs with isolated outlier PSMs, same PSMs passed best first
+    seen, hits = set(), 0
+    for c in list(KDE_OUTLIER_CANDIDATES):
+        h = lib.stable_hash({k: v for k, v in c.items() if k != "tags"})
+        if h in seen:
+            continue
+        seen.add(h)
+        i = impl(c)
+        if _order_sensitive_only_at_outliers(c, i):
+            hits += 1
+            if hits == 1:
+                fails.append({"what": "kde_nnls: " + str(oracle(c, i)), "key": KEY_KDE_OUTLIER, "failing_input": c})
+    info["kde_nnls_inputs_with_isolated_outliers"] = {"checked_in_both_orders": len(seen), "order_sensitive_at_the_outlier_only": hits}
+    info["nonfinite_results_of_estimator_cases"] = dict(NONFINITE_RESULTS)
+    info["known_finding_pi0_by_slope_cases"] = {a: len(v) for a, v in PI0_FINDING_CASES.items()}
     info["library_fit_failures"] = {a: {"count": len(v), "of": ESTIMATOR_CASES.get(a, 0),
                                         "examples": sorted(set((n, m, w) for n, m, w in v))[:3]}
                                     for a, v in FIT_FAILURES.items()}
